@@ -15,6 +15,7 @@
 import RtamtProofs.Lemmas.Lawful
 import Rtamt.Dense.Ref
 import Mathlib.Order.Bounds.Basic
+import RtamtProofs.Dense.StepNodes
 
 namespace Rtamt.Dense
 open Rtamt Val
@@ -41,37 +42,145 @@ def supported : F α → Bool
 def DEnv.WF (w : DEnv α) (xs : List String) : Prop :=
   ∀ x ∈ xs, w.sig x ≠ [] ∧ (w.sig x).times.Pairwise (· < ·)
 
+omit [Val α] in
+theorem IsStep.stepOn {g : Rat → Option α} {B : List Rat} {d : Rat} (h : IsStep g B d) :
+    StepOn g B d none :=
+  ⟨fun t h1 _ => h.2.1 t h1, fun t t' h1 h2 _ h4 => h.2.2 t t' h1 h2 h4⟩
+
+omit [Val α] in
+theorem StepOn.isStep {g : Rat → Option α} {B : List Rat} {d : Rat} (h : StepOn g B d none)
+    (h0 : ∀ t, t < d → g t = none) : IsStep g B d :=
+  ⟨h0, fun t h1 => h.1 t h1 trivial, fun t t' h1 h2 h4 => h.2 t t' h1 h2 trivial h4⟩
+
+omit [Val α] in
+theorem winSet_some_eq (g : Rat → Option α) (lo hi : Rat) :
+    winSet g lo (some hi) = {y | ∃ t, lo ≤ t ∧ t ≤ hi ∧ g t = some y} := rfl
+
+omit [Val α] in
+theorem winSet_none_eq (g : Rat → Option α) (lo : Rat) :
+    winSet g lo none = {y | ∃ t, lo ≤ t ∧ g t = some y} := by
+  ext y; simp [winSet, leHi]
+
 variable [LawfulVal α]
 
+set_option linter.unusedSectionVars false in
 theorem valAt_isStep (s : DSig α) (hne : s ≠ []) (hs : s.times.Pairwise (· < ·)) :
-    IsStep s.valAt s.times (s.times.head?.getD 0) := by
-  sorry
+    IsStep s.valAt s.times (s.times.head?.getD 0) :=
+  (valAt_step s hne hs).2.isStep (valAt_step s hne hs).1
 
 /-- Closed bounded window: the fold is the least upper bound of the values on `[lo, hi]`. -/
 theorem foldWin_max_isLUB (g : Rat → Option α) (B : List Rat) (d lo hi : Rat)
     (hg : IsStep g B d) (hlo : d ≤ lo) (hle : lo ≤ hi) :
     ∃ v, foldWin pmax ninf g B lo (some hi) = some v ∧
       IsLUB {y | ∃ t, lo ≤ t ∧ t ≤ hi ∧ g t = some y} v := by
-  sorry
+  rw [← winSet_some_eq]
+  exact foldWin_max_spec (hg.stepOn.restrict hlo (some hi)) hle
 
 theorem foldWin_min_isGLB (g : Rat → Option α) (B : List Rat) (d lo hi : Rat)
     (hg : IsStep g B d) (hlo : d ≤ lo) (hle : lo ≤ hi) :
     ∃ v, foldWin pmin pinf g B lo (some hi) = some v ∧
       IsGLB {y | ∃ t, lo ≤ t ∧ t ≤ hi ∧ g t = some y} v := by
-  sorry
+  rw [← winSet_some_eq]
+  exact foldWin_min_spec (hg.stepOn.restrict hlo (some hi)) hle
 
 /-- Unbounded window `[lo, ∞)` (last value held). -/
 theorem foldWin_max_isLUB_unbounded (g : Rat → Option α) (B : List Rat) (d lo : Rat)
     (hg : IsStep g B d) (hlo : d ≤ lo) :
     ∃ v, foldWin pmax ninf g B lo none = some v ∧
       IsLUB {y | ∃ t, lo ≤ t ∧ g t = some y} v := by
-  sorry
+  rw [← winSet_none_eq]
+  exact foldWin_max_spec (hg.stepOn.mono_lo hlo) trivial
 
 theorem foldWin_min_isGLB_unbounded (g : Rat → Option α) (B : List Rat) (d lo : Rat)
     (hg : IsStep g B d) (hlo : d ≤ lo) :
     ∃ v, foldWin pmin pinf g B lo none = some v ∧
       IsGLB {y | ∃ t, lo ≤ t ∧ g t = some y} v := by
-  sorry
+  rw [← winSet_none_eq]
+  exact foldWin_min_spec (hg.stepOn.mono_lo hlo) trivial
+
+omit [Val α] [LawfulVal α] in
+theorem scale_bounds (cfg : DCfg) (hs : 0 ≤ cfg.scale) {a b : Nat} (hab : a ≤ b) :
+    (0 : Rat) ≤ (a : Rat) * cfg.scale ∧ (a : Rat) * cfg.scale ≤ (b : Rat) * cfg.scale :=
+  ⟨mul_nonneg (Nat.cast_nonneg a) hs, mul_le_mul_of_nonneg_right (Nat.cast_le.2 hab) hs⟩
+
+/-- The part of `rhoD_isStep` that holds for every supported formula: `rhoD φ` is defined on
+    `[dom, ∞)` and is constant between consecutive candidates of `bps` there. -/
+theorem rhoD_stepOn (cfg : DCfg) (hs : 0 ≤ cfg.scale) (w : DEnv α) (φ : F α)
+    (hsup : supported φ = true) (hw : w.WF φ.vars) :
+    StepOn (rhoD cfg w φ) (bps cfg w φ) (dom w φ) none := by
+  induction φ with
+  | var x =>
+    obtain ⟨hne, hp⟩ := hw x (by simp [F.vars])
+    exact (valAt_step (w.sig x) hne hp).2.mono_lo (by rw [dom_var]; exact le_max_right _ _)
+  | const c => exact ⟨fun _ _ _ => rfl, fun _ _ _ _ _ _ => rfl⟩
+  | un op φ ih => exact stepOn_un op.app (ih hsup hw)
+  | bin op φ ψ ihφ ihψ =>
+    simp only [supported, Bool.and_eq_true] at hsup
+    have hwφ : w.WF φ.vars := fun x hx => hw x (List.mem_append_left _ hx)
+    have hwψ : w.WF ψ.vars := fun x hx => hw x (List.mem_append_right _ hx)
+    have := stepOn_bin op.app (ihφ hsup.1 hwφ) (ihψ hsup.2 hwψ)
+    rw [dom_of_vars_append w (φ := .bin op φ ψ) (φ1 := φ) (φ2 := ψ) rfl]
+    exact this
+  | tmp1 op φ ih =>
+    cases op <;> simp only [supported, Bool.false_and, Bool.true_and] at hsup
+    · exact absurd hsup (by simp)
+    · exact absurd hsup (by simp)
+    · exact absurd hsup (by simp)
+    · exact absurd hsup (by simp)
+    · exact absurd hsup (by simp)
+    · exact absurd hsup (by simp)
+    · exact stepOn_past winOp_max (ih hsup hw)
+    · exact stepOn_past winOp_min (ih hsup hw)
+    · exact stepOn_future winOp_max (ih hsup hw)
+    · exact stepOn_future winOp_min (ih hsup hw)
+  | tmp2 op φ ψ ihφ ihψ =>
+    simp only [supported, Bool.and_eq_true] at hsup
+    have hwφ : w.WF φ.vars := fun x hx => hw x (List.mem_append_left _ hx)
+    have hwψ : w.WF ψ.vars := fun x hx => hw x (List.mem_append_right _ hx)
+    rw [dom_of_vars_append w (φ := .tmp2 op φ ψ) (φ1 := φ) (φ2 := ψ) rfl]
+    cases op
+    · exact stepOn_since (ihφ hsup.1 hwφ) (ihψ hsup.2 hwψ)
+    · exact stepOn_until (ihφ hsup.1 hwφ) (ihψ hsup.2 hwψ)
+  | tb1 op a b φ ih =>
+    simp only [supported, Bool.and_eq_true, decide_eq_true_eq] at hsup
+    obtain ⟨ha', hab'⟩ := scale_bounds cfg hs hsup.1
+    have hg := ih hsup.2 hw
+    cases op
+    · refine stepOn_tb_past winOp_max hg hab' ?_ ?_ <;>
+        (intro c hc; simp only [bps, List.mem_append, List.mem_map])
+      · exact Or.inl (Or.inl ⟨c, hc, rfl⟩)
+      · exact Or.inl (Or.inr ⟨c, hc, rfl⟩)
+    · refine stepOn_tb_past winOp_min hg hab' ?_ ?_ <;>
+        (intro c hc; simp only [bps, List.mem_append, List.mem_map])
+      · exact Or.inl (Or.inl ⟨c, hc, rfl⟩)
+      · exact Or.inl (Or.inr ⟨c, hc, rfl⟩)
+    · refine stepOn_tb_future winOp_max hg ha' hab' ?_ ?_ <;>
+        (intro c hc; simp only [bps, List.mem_append, List.mem_map])
+      · exact Or.inl (Or.inl ⟨c, List.mem_cons_of_mem _ hc, rfl⟩)
+      · exact Or.inl (Or.inr ⟨c, List.mem_cons_of_mem _ hc, rfl⟩)
+    · refine stepOn_tb_future winOp_min hg ha' hab' ?_ ?_ <;>
+        (intro c hc; simp only [bps, List.mem_append, List.mem_map])
+      · exact Or.inl (Or.inl ⟨c, List.mem_cons_of_mem _ hc, rfl⟩)
+      · exact Or.inl (Or.inr ⟨c, List.mem_cons_of_mem _ hc, rfl⟩)
+  | tb2 op a b φ ψ ihφ ihψ =>
+    have hwφ : w.WF φ.vars := fun x hx => hw x (List.mem_append_left _ hx)
+    have hwψ : w.WF ψ.vars := fun x hx => hw x (List.mem_append_right _ hx)
+    rw [dom_of_vars_append w (φ := .tb2 op a b φ ψ) (φ1 := φ) (φ2 := ψ) rfl]
+    cases op <;> simp only [supported, Bool.and_eq_true, decide_eq_true_eq, Bool.false_and,
+      Bool.true_and] at hsup
+    · obtain ⟨ha', hab'⟩ := scale_bounds cfg hs hsup.1.1
+      refine stepOn_tb_since (ihφ hsup.1.2 hwφ) (ihψ hsup.2 hwψ) ha' hab' ?_ ?_ ?_ <;>
+        (intro c hc; simp only [bps, List.mem_append, List.mem_map])
+      · exact Or.inl (Or.inl (List.mem_cons_of_mem _ hc))
+      · exact Or.inl (Or.inr ⟨c, hc, rfl⟩)
+      · exact Or.inr ⟨c, hc, rfl⟩
+    · obtain ⟨ha', hab'⟩ := scale_bounds cfg hs hsup.1.1
+      refine stepOn_tb_until (ihφ hsup.1.2 hwφ) (ihψ hsup.2 hwψ) ha' hab' ?_ ?_ ?_ <;>
+        (intro c hc; simp only [bps, List.mem_append, List.mem_map])
+      · exact Or.inl (Or.inl (List.mem_cons_of_mem _ hc))
+      · exact Or.inl (Or.inr ⟨c, List.mem_cons_of_mem _ hc, rfl⟩)
+      · exact Or.inr ⟨c, List.mem_cons_of_mem _ hc, rfl⟩
+    · exact absurd hsup (by simp)
 
 /-- The robustness signal of a dense-time formula on step-function inputs is a step function
     on `[dom, ∞)` whose break-points are among the candidates `bps`. -/
